@@ -115,7 +115,7 @@ class Ctx:
         return r
 
     def validate(self, records: list[dict], *, shards: int | None = None, timeout=1200,
-                 module="TraceCheck") -> list[tuple[str, str, str]]:
+                 module="TraceCheck", max_skip_ratio: float | None = None) -> list[tuple[str, str, str]]:
         """Have TLC judge recorded observations.  Returns [(record id, property, clause)] rejections.
 
         Each record carries `id` and `props` (the properties it is to be judged by).  TLC evaluates
@@ -149,6 +149,7 @@ class Ctx:
             return r
 
         rej = []
+        skipped_before = self.extra.get("out_of_domain_records", 0)
         try:
             with cf.ThreadPoolExecutor(max_workers=shards) as ex:
                 results = list(ex.map(one, range(shards)))
@@ -181,6 +182,12 @@ class Ctx:
                 raise MachineryError(f"trace validator crashed: {r.violated}\n" + r.out[-3000:])
             judged += ok + bad
         self.traces += judged
+        if max_skip_ratio is not None:
+            # vacuity guard: a batch the generator built to be inside the property's domain must be judged, not skipped
+            sk = self.extra.get("out_of_domain_records", 0) - skipped_before
+            if sk > max_skip_ratio * len(records) + 1:
+                raise MachineryError(f"vacuity: {sk} of {len(records)} records of an in-domain batch were judged out of domain "
+                                     f"({self.extra.get('out_of_domain_reasons')})")
         return rej
 
     def apalache_inductive(self, module: str, key: str, timeout=400):
